@@ -3705,3 +3705,86 @@ func noopBreaks(p *Program, r *Report) int {
 	}
 	return n
 }
+
+// c02r14: sibling agreement of the per-type encoders. Every marshal<Type>(info, value) function answers the unset
+// marker (unsetColumn, which reaches them inside collections, tuples and UDTs) with (nil, nil) - or the dispatcher
+// Marshal does so once before it dispatches. An encoder that lost the case turns an unset element into a marshal error.
+func c02r14(p *Program, r *Report) {
+	answersUnset := func(fi *FuncInfo) bool {
+		info := fi.Pkg.TypesInfo
+		found := false
+		ast.Inspect(fi.Decl.Body, func(x ast.Node) bool {
+			rs, ok := x.(*ast.ReturnStmt)
+			if !ok || len(rs.Results) != 2 || !isNil(info, rs.Results[0]) {
+				return true
+			}
+			// (nil, nil), or for the composite types that do not support the marker an explicit error
+			if !isNil(info, rs.Results[1]) {
+				if c, isC := ast.Unparen(rs.Results[1]).(*ast.CallExpr); !isC || !strings.Contains(exprStr(c), "nsupported") && !strings.Contains(exprStr(c), "UnsetValue") {
+					return true
+				}
+			}
+			for pn := p.Parent(rs); pn != nil && pn != ast.Node(fi.Decl); pn = p.Parent(pn) {
+				switch c := pn.(type) {
+				case *ast.CaseClause:
+					for _, e := range c.List {
+						if exprStr(e) == "unsetColumn" {
+							found = true
+						}
+					}
+				case *ast.IfStmt:
+					if posWithin(c.Body, rs.Pos()) && strings.Contains(exprStr(c.Cond), "unsetColumn") {
+						found = true
+					}
+					if c.Init != nil && posWithin(c.Body, rs.Pos()) && strings.Contains(exprStrNode(c.Init), "unsetColumn") {
+						found = true
+					}
+				}
+			}
+			return true
+		})
+		return found
+	}
+	if m := p.Func("Marshal"); m != nil && m.Decl.Body != nil && answersUnset(m) {
+		r.OK(m.Decl, "Marshal answers the unset marker before it dispatches", "return nil, nil under a test for unsetColumn")
+		return
+	}
+	// the siblings: what the dispatcher Marshal calls with (info, value)
+	siblings := map[*FuncInfo]bool{}
+	if m := p.Func("Marshal"); m != nil && m.Decl.Body != nil {
+		for _, c := range callsIn(m.Decl.Body) {
+			if fn := calleeOf(m.Pkg.TypesInfo, c); fn != nil {
+				if h := p.FuncOf(fn); h != nil && h != m {
+					siblings[h] = true
+				}
+			}
+		}
+	}
+	n := 0
+	for _, fi := range p.SortedFuncs() {
+		if fi.Decl.Body == nil || fi.Pkg != p.Root || fi.Decl.Recv != nil || !siblings[fi] {
+			continue
+		}
+		sig, _ := fi.Obj.Type().(*types.Signature)
+		if sig == nil || sig.Params().Len() != 2 || sig.Results().Len() != 2 || typeNameOf(sig.Params().At(0).Type()) != "TypeInfo" {
+			continue
+		}
+		if _, isIface := sig.Params().At(1).Type().Underlying().(*types.Interface); !isIface {
+			continue
+		}
+		n++
+		ok := answersUnset(fi)
+		if !ok {
+			// through a helper of the package that the function hands the value to
+			for _, u := range p.unitsOf(fi) {
+				if u != fi && answersUnset(u) {
+					ok = true
+				}
+			}
+		}
+		r.Check(ok, fi.Decl, fi.Name+" has an answer for an unset value", "return nil, nil (or the explicit 'unsupported' error of tuples and UDTs) in the case / under the test for unsetColumn", "this encoder has no answer for the unset marker while its siblings have: an unset element of a collection, tuple or UDT of this type becomes a marshal error instead of a null")
+	}
+	if n == 0 {
+		r.Unresolved("no marshal<Type>(info, value) functions found")
+	}
+}
